@@ -42,7 +42,7 @@ def mkprog(name, tasks, files, ncontents=2, init=None, reqsets=None, failsets=No
     return {"name": name, "tasks": tasks, "files": files, "ncontents": ncontents,
             "init": init or {f: 0 for f in files},
             "reqsets": reqsets or subsets(names, True), "failsets": failsets or subsets(names),
-            "crash": False, "tear": [], "reps": 2, "maxstates": 200000}
+            "crash": False, "tear": [], "reps": 2, "maxstates": 40000}
 
 
 def programs(tier, pid):
@@ -66,6 +66,7 @@ def programs(tier, pid):
         ps = [Q1, Q2, Q3] if tier == "quick" else [Q1, Q2, Q3, Q4, P4]
         for p in ps:
             p["crash"] = True
+            p["maxstates"] = 12000 if tier == "quick" else 150000
             p["tear"] = [0, 1, 20, -2] if tier == "quick" else [-1]
             p["reps"] = 1 if tier == "quick" else 2
             names = [t["name"] for t in p["tasks"]]
@@ -92,8 +93,6 @@ def explore(ctx, driver, prog):
     if p.returncode != 0:
         raise Machinery("run-explore failed for %s: rc=%s %s" % (prog["name"], p.returncode, p.stderr[-3000:]))
     summ = json.loads(p.stdout.strip().splitlines()[-1])
-    if summ.get("truncated"):
-        raise Machinery("exploration of %s exceeded maxstates" % prog["name"])
     return d, summ
 
 
@@ -189,6 +188,10 @@ def replay_history(ctx, driver, prog, acts, invs):
 def check_program(ctx, driver, prog, invs):
     d, summ = explore(ctx, driver, prog)
     r = judge(ctx, d, invs)
+    if summ.get("truncated") and not r.violated:
+        # the breadth-first exploration was cut off (far more real states than this program has on a correct tree): a violation found in
+        # the explored part is real, but "held" cannot be claimed
+        raise Machinery("exploration of %s was cut off at %s states and no violation was found in the explored part" % (prog["name"], summ["states"]))
     res = {"prog": prog["name"], "summ": summ, "tlc": r, "dir": d, "violation": None}
     if r.violated:
         if not r.trace:
